@@ -59,6 +59,15 @@ def r_log(rng, lo, hi, n):
     return np.sort(np.exp(rng.uniform(math.log(lo), math.log(hi), size=n)))
 
 
+def zero_some(rng, kw, keys, p=0.2):
+    """exactly 0.0 is a legitimate value of these parameters (a temperature, a flux, a position, a time): each of them is
+    set to it with probability p - `value or default`, `if not value` and divisions by the value live here"""
+    for k in keys:
+        if k in kw and rng.random() < p:
+            kw[k] = 0.0
+    return kw
+
+
 def _g(rng):
     return uni(rng, 1.05, 3.0)
 
@@ -513,16 +522,16 @@ def dom_rod(rng, s, kw, geom, n):
 
 reg("Rod1D", "heat.rod1d:Rod1D", gen_rod, dom_rod, cost=0.01)
 reg("PlanarSandwich", "heat.planar_sandwich:PlanarSandwich",
-    lambda rng, geom: dict(kappa=logu(rng, 0.1, 10), Nsum=int(choice(rng, [100, 1000])), L=logu(rng, 0.5, 5),
-                           TT=uni(rng, 0, 3), TB=uni(rng, 0, 3), TL=uni(rng, 0, 3), TR=uni(rng, 0, 3)),
+    lambda rng, geom: zero_some(rng, dict(kappa=logu(rng, 0.1, 10), Nsum=int(choice(rng, [100, 1000])), L=logu(rng, 0.5, 5),
+                                          TT=uni(rng, 0, 3), TB=uni(rng, 0, 3), TL=uni(rng, 0, 3), TR=uni(rng, 0, 3)), ("TT", "TB", "TL", "TR")),
     dom_rod, cost=0.01)
 reg("PlanarSandwichHot", "heat.planar_sandwich_hot:PlanarSandwichHot",
-    lambda rng, geom: dict(kappa=logu(rng, 0.1, 10), Nsum=int(choice(rng, [100, 1000])), L=logu(rng, 0.5, 5),
-                           F=uni(rng, -2, 2), TL=uni(rng, 0, 3), TR=uni(rng, 0, 3)),
+    lambda rng, geom: zero_some(rng, dict(kappa=logu(rng, 0.1, 10), Nsum=int(choice(rng, [100, 1000])), L=logu(rng, 0.5, 5),
+                                          F=uni(rng, -2, 2), TL=uni(rng, 0, 3), TR=uni(rng, 0, 3)), ("F", "TL", "TR")),
     dom_rod, cost=0.01)
 reg("PlanarSandwichHalf", "heat.planar_sandwich_half:PlanarSandwichHalf",
-    lambda rng, geom: dict(kappa=logu(rng, 0.1, 10), Nsum=int(choice(rng, [100, 1000])), L=logu(rng, 0.5, 5),
-                           TB=uni(rng, 0, 3), FT=uni(rng, -2, 2), TL=uni(rng, 0, 3), TR=uni(rng, 0, 3)),
+    lambda rng, geom: zero_some(rng, dict(kappa=logu(rng, 0.1, 10), Nsum=int(choice(rng, [100, 1000])), L=logu(rng, 0.5, 5),
+                                          TB=uni(rng, 0, 3), FT=uni(rng, -2, 2), TL=uni(rng, 0, 3), TR=uni(rng, 0, 3)), ("TB", "FT", "TL", "TR")),
     dom_rod, cost=0.01)
 
 
